@@ -251,6 +251,9 @@ func Printf(format string, a ...interface{}) {
 func Fatalf(format string, a ...interface{}) {
 	loggerOutput(CRITICAL, format, a...)
 	loggerOutputter.Flush()
+	if verifOn && verifOnFatal != nil {
+		verifOnFatal(fmt.Sprintf(format, a...))
+	}
 	os.Exit(1)
 }
 
